@@ -1,4 +1,98 @@
 import TsRsVerif.Model.Deps
+import TsRsVerif.Lemmas.ImportLemmas
+/-!
+# C03 — exported files import exactly the names they use, from where they live
+
+Theorems about `generateImports` (= `generate_imports`, export.rs:326-381) for EVERY list of visited
+dependencies (every dependency graph, every placement): the import block never imports from the
+file itself, names every specifier once and every name once per specifier, in sorted order.
+That the visited list equals the names the declaration USES ("imports exactly what it uses") depends
+on the derive recording the right dependencies arm by arm; that part is PARTIAL: it is decided on
+every run by the closure oracle over the real exported directories (independent TypeScript reader),
+and the four known exceptions are recorded as findings with witnesses.
+-/
 namespace TsRs
-theorem C03_placeholder : True := trivial
+open Text Derive Merge
+
+/-- invariant: well-formed (sorted, duplicate-free) and no specifier that denotes the file itself -/
+def ImportsOK (path : Str) (m : Imports) : Prop :=
+  ImportsWF m ∧ ∀ k ∈ m.map (·.1), Path.isSameFile path k = false
+
+theorem importStep_inv (esm : Bool) (cwd outDir path : Str) (ds : List Visited) :
+    ∀ (acc : Option (Except ExportErr Imports)) (m : Imports),
+      (∀ m0, acc = some (.ok m0) → ImportsOK path m0) →
+      ds.foldl (importStep esm cwd outDir path) acc = some (.ok m) → ImportsOK path m := by
+  induction ds with
+  | nil => intro acc m h hm; exact h m hm
+  | cons d ds ih =>
+    intro acc m h hm
+    simp only [List.foldl_cons] at hm
+    refine ih (importStep esm cwd outDir path acc d) m ?_ hm
+    intro m1 h1
+    unfold importStep at h1
+    cases acc with
+    | none => simp at h1
+    | some r =>
+      cases r with
+      | error e => simp at h1
+      | ok m0 =>
+        have h0 := h m0 rfl
+        simp only at h1
+        cases hi : Path.importPath esm cwd path (Path.join outDir d.path) with
+        | none => simp [hi] at h1
+        | some ri =>
+          cases ri with
+          | error e => simp [hi] at h1
+          | ok rel =>
+            simp only [hi] at h1
+            by_cases hs : Path.isSameFile path rel = true
+            · simp only [hs, if_true, Option.some.injEq, Except.ok.injEq] at h1
+              subst h1; exact h0
+            · simp only [hs, Bool.false_eq_true, if_false, Option.some.injEq, Except.ok.injEq] at h1
+              subst h1
+              refine ⟨insertImport_wf rel d.ident m0 h0.1, ?_⟩
+              intro k hk
+              rcases (insertImport_keys rel d.ident m0 k).mp hk with hk' | hk'
+              · subst hk'; simpa using hs
+              · exact h0.2 k hk'
+
+/-- **the import block of every exported file**: (a) no import line names the file itself;
+(b) the specifiers are strictly sorted — one `import type` line per imported file;
+(c) under each specifier the names are strictly sorted — every name imported exactly once. -/
+theorem C03_import_block (esm : Bool) (cwd outDir path : Str) (ds : List Visited) (m : Imports)
+    (h : ds.foldl (importStep esm cwd outDir path) (some (.ok [])) = some (.ok m)) :
+    (∀ k ∈ m.map (·.1), Path.isSameFile path k = false) ∧
+    (m.map (·.1)).Pairwise (fun a b => ltStr a b = true) ∧
+    (∀ e ∈ m, e.2.Nodup) := by
+  have := importStep_inv esm cwd outDir path ds (some (.ok [])) m
+    (fun m0 h0 => by
+      simp only [Option.some.injEq, Except.ok.injEq] at h0
+      subst h0; exact ⟨⟨by simp, by simp⟩, by simp⟩) h
+  refine ⟨this.2, this.1.1, fun e he => ?_⟩
+  exact (this.1.2 e he).imp (fun hab => ltStr_ne hab)
+
+/-- the same, stated for `generate_imports` itself: whatever text it returns is the rendering of
+such a well-formed, self-free import map -/
+theorem C03_generate_imports (esm : Bool) (cwd outDir : Str) (it : Item) (deps : List Visited) (text : Str)
+    (h : generateImports esm cwd outDir it deps = some (.ok text)) :
+    ∃ m : Imports, text = renderImports m ++ ['\n'] ∧
+      (∀ k ∈ m.map (·.1), Path.isSameFile (Path.join outDir (outputPath it)) k = false) ∧
+      (m.map (·.1)).Pairwise (fun a b => ltStr a b = true) ∧ (∀ e ∈ m, e.2.Nodup) := by
+  unfold generateImports at h
+  simp only at h
+  cases hf : (dedupByName it deps).foldl (importStep esm cwd outDir (Path.join outDir (outputPath it))) (some (.ok [])) with
+  | none => simp [hf] at h
+  | some r =>
+    cases r with
+    | error e => simp [hf] at h
+    | ok m =>
+      simp only [hf, Option.some.injEq, Except.ok.injEq] at h
+      exact ⟨m, h.symm, C03_import_block esm cwd outDir _ _ m hf⟩
+
+/-- the type's own instantiation is never among the candidates (`dep.type_id != TypeId::of::<T>()`) -/
+theorem C03_self_filtered (it : Item) (deps : List Visited) :
+    ∀ d ∈ deps.filter (fun d => !RTy.beq d.ty (withoutGenerics it)), RTy.beq d.ty (withoutGenerics it) = false := by
+  intro d hd
+  simpa using (List.mem_filter.mp hd).2
+
 end TsRs
